@@ -24,7 +24,7 @@ from svparse import SVSyntaxError, SVUnsupported
 REFK = ("id", "idx", "field", "range", "psel")
 
 
-def _rename_e(e, pfx, local):
+def _rename_e(e, pfx, local, insts=frozenset()):
     k = e["k"]
     if k == "num":
         return e
@@ -32,24 +32,27 @@ def _rename_e(e, pfx, local):
         if e["n"] in local:
             return e
         return {"k": "id", "n": pfx + e["n"]}
+    if k == "field" and e["e"]["k"] == "id" and e["e"]["n"] in insts and e["e"]["n"] not in local:
+        # hierarchical reference  inst.signal  (23.6): the variable of that instance
+        return {"k": "id", "n": pfx + e["e"]["n"] + "." + e["f"]}
     out = {}
     for key, v in e.items():
         if isinstance(v, dict):
-            out[key] = _rename_e(v, pfx, local)
+            out[key] = _rename_e(v, pfx, local, insts)
         elif key == "es":
-            out[key] = [_rename_e(x, pfx, local) for x in v]
+            out[key] = [_rename_e(x, pfx, local, insts) for x in v]
         else:
             out[key] = v
     return out
 
 
-def _rename_s(s, pfx, local):
+def _rename_s(s, pfx, local, insts=frozenset()):
     k = s["k"]
     if k == "blk":
-        return {"k": "blk", "ss": [_rename_s(x, pfx, local) for x in s["ss"]]}
+        return {"k": "blk", "ss": [_rename_s(x, pfx, local, insts) for x in s["ss"]]}
     if k == "if":
-        return {"k": "if", "c": _rename_e(s["c"], pfx, local), "t": _rename_s(s["t"], pfx, local),
-                "e": _rename_s(s["e"], pfx, local)}
+        return {"k": "if", "c": _rename_e(s["c"], pfx, local, insts), "t": _rename_s(s["t"], pfx, local, insts),
+                "e": _rename_s(s["e"], pfx, local, insts)}
     if k == "for":
         if s["decl"]:
             loc = local | {s["v"]}
@@ -57,10 +60,10 @@ def _rename_s(s, pfx, local):
         else:
             loc = local
             v = pfx + s["v"]
-        return {"k": "for", "v": v, "decl": s["decl"], "init": _rename_e(s["init"], pfx, local),
-                "cond": _rename_e(s["cond"], pfx, loc), "step": _rename_e(s["step"], pfx, loc),
-                "body": _rename_s(s["body"], pfx, loc)}
-    return {"k": k, "l": _rename_e(s["l"], pfx, local), "r": _rename_e(s["r"], pfx, local)}
+        return {"k": "for", "v": v, "decl": s["decl"], "init": _rename_e(s["init"], pfx, local, insts),
+                "cond": _rename_e(s["cond"], pfx, loc, insts), "step": _rename_e(s["step"], pfx, loc, insts),
+                "body": _rename_s(s["body"], pfx, loc, insts)}
+    return {"k": k, "l": _rename_e(s["l"], pfx, local, insts), "r": _rename_e(s["r"], pfx, local, insts)}
 
 
 def _lit(i):
@@ -104,6 +107,7 @@ def elaborate(ast, top):
         if mn in stack:
             raise SVSyntaxError("recursive instantiation of module %s" % mn)
         m = ast["modules"][mn]
+        insts = frozenset(it["n"] for it in m["insts"])
         for p in m["ports"]:
             add_var(pfx + p["n"], p["ty"], ("in" if p["dir"] == "in" else "out") if depth == 0 else "var")
         for v in m["vars"]:
@@ -111,10 +115,10 @@ def elaborate(ast, top):
         for p in m["params"]:
             add_var(pfx + p["n"], p["ty"], "param")
             init = _flatten_pattern(p["init"], p["ty"]["ud"], "%s%s" % (pfx, p["n"]))
-            flat["params"].append({"n": pfx + p["n"], "init": [_rename_e(x, pfx, frozenset()) for x in init]})
+            flat["params"].append({"n": pfx + p["n"], "init": [_rename_e(x, pfx, frozenset(), insts) for x in init]})
         for pr in m["procs"]:
             ent = {"label": pfx + (pr["label"] or ""), "kind": pr["k"],
-                   "body": _rename_s(pr["body"], pfx, frozenset())}
+                   "body": _rename_s(pr["body"], pfx, frozenset(), insts)}
             (flat["ff"] if pr["k"] == "ff" else flat["comb"]).append(ent)
         for it in m["insts"]:
             sub = ast["modules"][it["mod"]]
@@ -124,7 +128,7 @@ def elaborate(ast, top):
             for c in it["conns"]:
                 p = sp[c["p"]]
                 connected.add(c["p"])
-                outer = _rename_e(c["e"], pfx, frozenset())
+                outer = _rename_e(c["e"], pfx, frozenset(), insts)
                 inner = {"k": "id", "n": ipfx + p["n"]}
                 ud = p["ty"]["ud"]
                 if p["dir"] == "out" and outer["k"] not in REFK:
